@@ -1329,6 +1329,20 @@ class Enumerator:
                     break
         if isinstance(t, ast.Constant):
             return [(st, bool(t.value) != neg)]
+        # comparisons between literals are decided (e.g. `record is None` after a helper that returned None was inlined)
+        if isinstance(t, ast.Compare) and len(t.ops) == 1 and isinstance(t.left, ast.Constant) and isinstance(t.comparators[0], ast.Constant):
+            a, b = t.left.value, t.comparators[0].value
+            if isinstance(t.ops[0], ast.Is):
+                if a is None or b is None or isinstance(a, bool) or isinstance(b, bool):
+                    return [(st, (a is b) != neg)]
+            elif isinstance(t.ops[0], ast.Eq):
+                try:
+                    return [(st, (a == b) != neg)]
+                except Exception:
+                    pass
+        # a tuple / list / dict / set display is never None
+        if isinstance(t, ast.Compare) and len(t.ops) == 1 and isinstance(t.ops[0], ast.Is) and isinstance(t.comparators[0], ast.Constant) and t.comparators[0].value is None and isinstance(t.left, (ast.Tuple, ast.List, ast.Dict, ast.Set, ast.ListComp, ast.JoinedStr)):
+            return [(st, False != neg)]
         if isinstance(t, ast.UnaryOp) and isinstance(t.op, ast.Not):
             return [(s, (not v)) for s, v in self._atom(t.operand, st, node)] if not neg else self._atom(t.operand, st, node)
         if isinstance(t, ast.BoolOp) and not neg:
